@@ -48,6 +48,9 @@ SNIPPETS = [
     "np.add.reduceat(np.array([1.0, 2.0, 4.0, 8.0, 16.0]), np.array([0, 2, 3]))", "np.add.reduceat(np.arange(6), np.array([1, 4])) / np.diff(np.array([1, 4, 6]))",
     "np.allclose(np.array([1e-9, -1e-9]), 0)", "np.allclose(np.array([1e-7, 0.0]), 0)", "np.isclose(np.array([1.0, 2.0, np.nan]), np.array([1.0 + 1e-9, 2.1, np.nan]))",
     "np.linspace(0, 7 / 3, 7, endpoint=False)", "np.linspace(0, 1, 5)", "np.linspace(2.0, 3.0, 1)",
+    "_l1()", "_l2()", "_l3()", "_l4()", "_l5()", "_l6()", "_l7()",
+    "np.full_like(np.array([1.5, 2.5]), np.nan)", "np.zeros_like(np.array([1, 2, 3]), shape=2)", "np.round(np.array([1.23456, -0.5, 2.5]), 2)",
+    "pd.Series([0.123456789012, 1.5]).round(decimals=9).tolist()",
     "np.ceil(3 / 2)", "int(np.ceil(0 / 2))", "np.array([2, 9, 4])[0::2]", "np.array([5, 7, 9])[np.array([True, False, True])] - 2",
     # --- pandas
     "pd.DataFrame({'a': [1, 2, 3], 'b': [1.5, 2.5, 3.5]}).to_dict('records')", "len(pd.DataFrame())", "list(pd.DataFrame().columns)",
@@ -74,6 +77,28 @@ def _w5():
     a = np.zeros(4); a[np.array([0, 2])] = -1.5; a[np.where(a < 0)[0]] = 0; return a
 def _w6():
     a = np.arange(4.0); a *= -1; return a
+def _l1():
+    a = np.arange(6).reshape(2, 3); f = np.asfortranarray(a)
+    return [f.tolist(), f.flags.c_contiguous, f.flags.f_contiguous, f.reshape(6, order='A').tolist(), f.reshape(6).tolist(),
+            f.ravel(order='K').tolist(), f.ravel().tolist(), a.T.ravel(order='K').tolist(), a.T.reshape(6, order='A').tolist()]
+def _l2():
+    a = np.arange(24).reshape(2, 3, 4); f = np.asfortranarray(a)
+    return [np.reshape(f, (6, 4), order='A').tolist(), np.reshape(a, (6, 4), order='A').tolist(), f.reshape(6, 4).tolist()]
+def _l3():
+    x = np.array([True, True, False, True, True, True]); v = x[::2]; r = np.ravel(v); r[0] = False
+    return [x.tolist(), v.flags.c_contiguous]
+def _l4():
+    x = np.array([True, True, False, True]); r = np.ravel(x); r[0] = False
+    return x.tolist()
+def _l5():
+    x = np.arange(6); v = np.flip(x); r = np.ravel(v); r[0] = 99
+    return [x.tolist(), v.tolist()]
+def _l6():
+    m = np.arange(6).reshape(3, 2); col = m[:, 1]; r = np.ravel(col); r[0] = 77
+    return [m.tolist(), col.flags.c_contiguous]
+def _l7():
+    a = np.arange(6).reshape(2, 3)
+    return [a.T.flatten().tolist(), a.T.flatten(order='K').tolist(), a.flatten(order='F').tolist(), np.ravel(a.T, order='K').tolist()]
 def _p1():
     df = pd.DataFrame({'a': [1.0, 2.0, 3.0]}); v = df['a'].values
     try:
